@@ -10,6 +10,7 @@ import Mfi.Model.Token
 import Mfi.Lemmas.FxL
 import Mfi.Lemmas.ResL
 import Mfi.Lemmas.BankL
+import Mfi.Lemmas.TagL
 
 namespace Mfi.Props.C03
 open Mfi Mfi.Fx Mfi.Bank Mfi.Gen Mfi.Token
@@ -528,5 +529,10 @@ def demoUser : Holder := ⟨1000, { active := true, tag := 0, a := 0, l := 0, em
 example : Good demoBank demoUser := by unfold Good; decide
 example : (applyOp demoBank demoUser 0 (.deposit 7)).isOk = true := by decide
 example : (runOps demoBank demoUser [(0, .deposit 7), (0, .withdraw 3), (0, .withdraw 3)]).2.wallet = 999 := by decide
+
+/-- the token-denominated accounting this file is about is the only accounting the standard instructions can reach:
+    they are constrained to the program's own banks (constraint table regenerated from the source; Mfi.TagL) -/
+theorem standard_instructions_only_on_own_banks : Mfi.TagL.OwnBanks :=
+  Mfi.TagL.standard_instructions_only_on_own_banks
 
 end Mfi.Props.C03
